@@ -432,6 +432,22 @@ def dotVals (d : Dialect) (a b : Val) : CM Val :=
     | p :: ps => ps.foldlM (fun acc q => cBinScalar d .add acc q) p
   | _, _ => throw (.stuck "dot operands")
 
+/-- Library functions of the three languages that this interpreter does not execute (a call is `unsupported`, the case
+is skipped); a call of any *other* unknown name is a call of an undeclared function — an error of the emitted text. -/
+def knownLibrary : List String :=
+  ["sin", "cos", "tan", "asin", "acos", "atan", "atan2", "sinh", "cosh", "tanh", "asinh", "acosh", "atanh", "exp", "exp2", "log", "log2",
+   "pow", "sqrt", "rsqrt", "inversesqrt", "floor", "ceil", "round", "rint", "roundEven", "trunc", "fract", "frac", "fmod", "modf", "frexp", "ldexp",
+   "fma", "mad", "sign", "saturate", "step", "smoothstep", "lerp", "mix", "length", "distance", "normalize", "cross", "reflect", "refract",
+   "faceforward", "transpose", "determinant", "inverse", "mul", "degrees", "radians", "isnan", "isinf", "f16tof32", "f32tof16", "select",
+   "extract_bits", "insert_bits", "bitfieldExtract", "bitfieldInsert", "packHalf2x16", "unpackHalf2x16", "packSnorm4x8", "packUnorm4x8",
+   "packSnorm2x16", "packUnorm2x16", "unpackSnorm4x8", "unpackUnorm4x8", "unpackSnorm2x16", "unpackUnorm2x16", "pack_float_to_snorm4x8",
+   "pack_float_to_unorm4x8", "unpack_snorm4x8_to_float", "unpack_unorm4x8_to_float", "dot4add_i8packed", "dot4add_u8packed", "ddx", "ddy",
+   "fwidth", "dfdx", "dfdy", "dFdx", "dFdy", "atomic_load_explicit", "atomic_store_explicit", "atomic_fetch_add_explicit", "atomicAdd",
+   "InterlockedAdd", "clamp", "min", "max", "abs", "all", "any", "dot", "not", "equal", "notEqual", "lessThan", "lessThanEqual", "greaterThan",
+   "greaterThanEqual", "countbits", "reversebits", "firstbitlow", "firstbithigh", "popcount", "reverse_bits", "clz", "ctz", "bitCount",
+   "bitfieldReverse", "findLSB", "findMSB", "asuint", "asint", "asfloat", "floatBitsToInt", "floatBitsToUint", "intBitsToFloat",
+   "uintBitsToFloat", "min3", "max3", "median3", "precise", "fmin", "fmax", "fabs", "copysign", "mulhi", "abs_diff"]
+
 /-- Intrinsic functions by dialect (name already stripped of `metal::`). -/
 def intrinsic (d : Dialect) (name : String) (args : List Val) : CM Val := do
   let args ← args.mapM (fun a => usePoison a "argument")
@@ -493,8 +509,8 @@ def intrinsic (d : Dialect) (name : String) (args : List Val) : CM Val := do
       match x, y with
       | .vec _, .vec _ => vzip (cBinScalar d op) x y
       | _, _ => throw (.stuck (n ++ " needs two vectors"))
-    | none => throw (.unsupported ("function " ++ n))
-  | _, n, _ => throw (.unsupported ("function " ++ n))
+    | none => if knownLibrary.contains n then throw (.unsupported ("function " ++ n)) else throw (.stuck ("call of an undeclared function " ++ n))
+  | _, n, _ => if knownLibrary.contains n then throw (.unsupported ("function " ++ n)) else throw (.stuck ("call of an undeclared function " ++ n))
 
 /-! ## The interpreter -/
 
